@@ -6,14 +6,22 @@
 // several overrides / bad pattern) x zone awareness x RF x cache size, tenants chosen per matcher branch. Real
 // NewMultiHashring, real GetN; the tenant's sub-ring nodes are read through an in-package adapter from the real
 // getTenantShard (fresh) and getTenantShardCached (what GetN answers from).
+//
+// Second family (positions of the draws): the same shuffle-sharded ring built over a base ketama ring with 1..3
+// sections per node instead of 1000, so that a tenant's random draws land before the first, between and after the
+// last section of every node (and of every not yet selected node) all the time instead of once in a thousand
+// tenants; node layouts x shard sizes x zone awareness x sections per node x a bounded family of tenant names.
 package c21
 
 import (
 	"fmt"
 	"iter"
 	"math/bits"
+	"math/rand"
 	"path/filepath"
+	"runtime/debug"
 	"slices"
+	"sort"
 	"testing"
 
 	"github.com/prometheus/client_golang/prometheus"
@@ -37,6 +45,11 @@ type Case struct {
 	ZAD       bool       `json:"zone_awareness_disabled"`
 	RF        int        `json:"rf"`
 	CacheSize int        `json:"cache_size"` // 0 = default (100)
+	// SPN = 0: loaded with NewMultiHashring (base ring with the production 1000 sections per node). SPN > 0: the
+	// shuffle-sharded ring over a base ketama ring with SPN sections per node (second family).
+	SPN int `json:"base_sections_per_node,omitempty"`
+	// Tenants observed; empty = one tenant per matcher branch (a, ab, b1, other, "").
+	Tenants []string `json:"tenants,omitempty"`
 }
 
 var tenants = []string{"a", "ab", "b1", "other", ""}
